@@ -225,3 +225,24 @@ pub fn hash_tokens(s: &Spec, built_how: bool) -> Vec<String> {
 pub fn k2_shape(x: &Spec, y: &Spec) -> bool {
   x != y && hash_tokens(x, false) == hash_tokens(y, false)
 }
+
+/// A hasher that, unlike SipHash and FNV, is sensitive to how the bytes are cut into `write` calls (as FxHasher is,
+/// which the library itself uses inside CachedSource): every call mixes in its own length.  The sequence of calls a
+/// `Hash` impl makes must be a function of the value, not of where the value lives.
+pub fn hash_split(s: &dyn rspack_sources::Source) -> u64 {
+  struct Split(u64);
+  impl std::hash::Hasher for Split {
+    fn finish(&self) -> u64 {
+      self.0
+    }
+    fn write(&mut self, bytes: &[u8]) {
+      self.0 = (self.0.rotate_left(5) ^ bytes.len() as u64).wrapping_mul(0x517cc1b727220a95);
+      for b in bytes {
+        self.0 = (self.0.rotate_left(5) ^ *b as u64).wrapping_mul(0x517cc1b727220a95);
+      }
+    }
+  }
+  let mut h = Split(0);
+  s.update_hash(&mut h);
+  std::hash::Hasher::finish(&h)
+}
